@@ -87,6 +87,18 @@ KINDS = {
     "inner": ({"$ref": "#/definitions/Inner"}, [{}, {"x": 1, "y": "s"}], [{"x": 3}, {}]),
     "pair": ({"$ref": "#/definitions/Pair"}, [{"k": 1}, {"k": 2, "w": False}], [{"k": 4}]),
     "onoff": ({"type": "string", "enum": ["on", "off"]}, ["on", "off"], ["off"]),
+    # the remaining IR kinds: unit, NonZero, f32, natives, set, tuple, fixed-size array
+    "unit": ({"type": "null"}, [None], [None]),
+    "nonzero": ({"type": "integer", "minimum": 1}, [1, 9], [4]),
+    "f32": ({"type": "number", "format": "float"}, [1.5, 0.0], [2.5]),
+    "uuid": ({"type": "string", "format": "uuid"}, ["8f14e45f-ceea-467f-9a3b-0f2a3d1e5c77"], []),
+    "datetime": ({"type": "string", "format": "date-time"}, ["2020-01-02T03:04:05Z"], []),
+    "date": ({"type": "string", "format": "date"}, ["2021-12-31"], []),
+    "ip": ({"type": "string", "format": "ip"}, ["10.0.0.1", "::1"], []),
+    "set": ({"type": "array", "items": {"type": "string"}, "uniqueItems": True}, [[], ["a"]], [[]]),
+    "tuple": ({"type": "array", "items": [{"type": "integer"}, {"type": "string"}], "minItems": 2, "maxItems": 2},
+              [[1, "a"], [0, ""]], []),
+    "array": ({"type": "array", "items": {"type": "integer"}, "minItems": 3, "maxItems": 3}, [[1, 2, 3]], []),
     # property types WITH a type-level default, by reference …
     "shortd": ({"$ref": "#/definitions/ShortD"}, ["", "batch", "abcdefghijklmnop"], ["dd", "batch", ""]),
     "enumnt": ({"$ref": "#/definitions/EnumNT"}, [1, 3], [3, 2]),
@@ -125,6 +137,10 @@ TD_KINDS = ["shortd", "enumnt", "aliasd", "aliass", "level", "cfgd", "retries", 
             "oretries", "oshortd", "olevel", "oaliass", "ishort", "ilevel", "ienumnt", "icfg"]
 
 
+ALL_REQ_KINDS = ["unit", "bool", "int", "u8", "i32", "nonzero", "num", "f32", "str", "uuid", "datetime", "date", "ip",
+                 "nullable", "vec", "map", "set", "tuple", "array", "color", "onoff", "inner", "pair", "short", "pat", "any"]
+
+
 def force_list():
     """(kind, state, member default) for every type-with-default kind: Required, no member default, and every
     member default candidate (equal to the type's own default / the inner type's zero / another valid value)"""
@@ -138,6 +154,9 @@ def force_list():
         out.append((k_, "optional", None))
         for d_ in defs:
             out.append((k_, "default", d_))
+    # a member of EVERY IR kind as a Required member (unset / set / failing `Bad` argument are generated per field)
+    for k_ in ALL_REQ_KINDS:
+        out.append((k_, "required", None))
     return out
 # string arguments for the `&str` / `String` setter modes: (value, schema-valid?)
 STR_ARGS = {
@@ -306,6 +325,11 @@ def tryfrom_table(scan):
     return t
 
 
+def type_key(ty):
+    """one key per Rust type for the token spellings typify uses (`Vec<..>` for sets, `::std::vec::Vec<..>` for arrays)"""
+    return norm_tokens(ty).replace("::std::vec::Vec<", "Vec<")
+
+
 def named_local(ent, tid):
     """name of the generated (crate-local) named type with this id, or None"""
     e = ent[str(tid)]
@@ -333,11 +357,11 @@ def field_modes(gen, prop, sfield, tft):
         m = re.match(r"^:: std :: option :: Option < (.*) >$", sfield["ty"])
         if m:
             modes.append("o")
-    # "b": a driver-local type `Bad` whose conversion into the member type always fails (possible for
-    # crate-local named types and, Box being #[fundamental], for Box<local>): the failing-conversion message
-    # oracle then runs on every named member kind, incl. Box<T> members inserted by cycle breaking
-    if named_local(ent, prop["type_id"]) or (e["kind"] == "box" and named_local(ent, e["id"])):
-        modes.append("b")
+    # "b": a driver-local type `Bad` whose conversion into the member type always fails.  `impl TryFrom<Bad> for FT`
+    # is allowed for EVERY member type (the local type is the trait's parameter), so the failing-conversion
+    # oracles run on every member of every kind: (), bool, ints, NonZero, floats, String, natives, Option, Vec, maps,
+    # sets, tuples, arrays, Box, enums, structs, newtypes, serde_json::Value
+    modes.append("b")
     # "B": the member struct's own builder as the argument (TryInto fails when a required field is unset)
     if e["kind"] == "struct":
         modes.append("B")
@@ -386,14 +410,13 @@ def chunks_fn(i, gen):
         L.append("  ::serde_json::Value::Array(v) }")
         # driver-local argument type with an always-failing conversion into every crate-local member type
         ent_ = gen["dump"]["entries"]
-        bad_targets = []
+        bad_targets = {}
         for p, f in zip(props, sfields):
             e_ = ent_[str(p["type_id"])]
-            if named_local(ent_, p["type_id"]):
-                bad_targets.append(f["ty"])
-            elif e_["kind"] == "box" and named_local(ent_, e_["id"]):
+            bad_targets.setdefault(type_key(f["ty"]), f["ty"])
+            if e_["kind"] == "box" and named_local(ent_, e_["id"]):
                 # both Box<X> (what the setter converts into today) and X
-                bad_targets += [f["ty"], named_local(ent_, e_["id"])]
+                bad_targets.setdefault(type_key(named_local(ent_, e_["id"])), named_local(ent_, e_["id"]))
         # Box<X> members (cycle breaking): the "v" argument goes through a driver-local wrapper that converts into
         # Box<X> as well as into X, so that this chunk keeps compiling (and the message oracle keeps running) if the
         # setter's bound changes between the two; passing Box<X> / X themselves is asserted by the small chunk c18t_*
@@ -410,7 +433,7 @@ def chunks_fn(i, gen):
                          "fn try_from(w: Wrap_%s) -> ::std::result::Result<Self, ::std::string::String> { Ok(*w.0) } }" % (
                              f["name"], boxed[f["name"]], f["name"]))
         L.append("pub struct Bad(pub ::std::string::String);")
-        for t_ in sorted(set(bad_targets)):
+        for t_ in sorted(bad_targets.values()):
             L.append("impl ::std::convert::TryFrom<Bad> for %s { type Error = ::std::string::String; "
                      "fn try_from(b: Bad) -> ::std::result::Result<Self, ::std::string::String> { Err(b.0) } }" % t_)
         # ---- apply the setters
@@ -668,7 +691,7 @@ def gen_sets(rnd, sc, tier):
                 continue
             if mode == "o" and arg(k, "o") is None:
                 continue
-            for _ in range(2):
+            for _ in range(1 if mode == "b" else 2):
                 a = [sc.idents[k], mode, arg(k, mode)]
                 base = [x for x in full() if x[0] != sc.idents[k]]
                 seqs.append(base + [a])                                   # everything else set, then this
@@ -718,7 +741,9 @@ def expected_direct(sc, seq):
     for k, p in enumerate(sc.props):
         ident = p["name"]
         if sc.flat(k):
-            if ident in last and isinstance(last[ident][1], dict):
+            if ident in last and last[ident][0] == "b":
+                offenders.append((ident, "conv"))
+            elif ident in last and isinstance(last[ident][1], dict):
                 obj.update(last[ident][1])
             continue
         s = sc.fspec[k]
@@ -783,14 +808,12 @@ def template_tie(gen):
             else:
                 pos = at
         tbody = norm_tokens(tf[0]["body"])
-        pos = 0
-        for f in sfields:
-            e2 = "%s:value.%s?," % (f["name"], f["name"])
-            at = tbody.find(e2, pos)
-            if at < 0:
-                bad.append("%s.%s: try_from does not read the slot in order" % (name, f["name"]))
-            else:
-                pos = at
+        want = "Ok(Self{%s})" % "".join("%s:value.%s?," % (f["name"], f["name"]) for f in sfields)
+        m_ = re.search(r"\{Ok\(Self\{.*\}\)\}\}$", tbody)
+        got = m_.group(0)[1:-2] if m_ else None
+        if got != want:
+            bad.append("%s: TryFrom<builder::%s> body is not `Ok(Self { f: value.f?, … })` over all fields in "
+                       "declaration order: %s" % (name, name, (got or tbody)[-400:]))
     return bad
 
 
@@ -866,7 +889,7 @@ def run(ctx):
                "primitive integers, T for Option<T>)", not w.chunk_failures,
                json.dumps({str(k): v[:2] for k, v in w.chunk_failures.items()})[:3000])
 
-    if MUT in ("api-path", "scan-default"):
+    if MUT in ("api-path", "scan-default", "scan-tryfrom"):
         emulate_early(ctx, w)
 
     # ---- builder path (Type::builder()) and template tie
@@ -921,6 +944,21 @@ def run(ctx):
                 b_ = td["required" if p_["state"]["k"] == "required" else "other"]
                 b_[e_["kind"]] = b_.get(e_["kind"], 0) + 1
     ctx.coverage["props_whose_type_has_a_type_level_default"] = td
+    # … and a Required member of every IR kind
+    rk = {}
+    for sc in structs:
+        if sc.spec is None:
+            continue
+        ent = sc.gen["dump"]["entries"]
+        for p_ in sc.props:
+            if p_["state"]["k"] == "required" and p_["rename"]["k"] != "flatten":
+                k_ = ent[str(p_["type_id"])]["kind"]
+                rk[k_] = rk.get(k_, 0) + 1
+    ctx.coverage["required_members_by_ir_kind"] = rk
+    need = ["unit", "boolean", "integer", "float", "string", "native", "option", "vec", "map", "set", "tuple", "array",
+            "box", "enum", "struct", "newtype", "json"]
+    ctx.oblige("coverage: a Required member of every IR kind (%s) is present" % ", ".join(need),
+               all(rk.get(k_, 0) > 0 for k_ in need), json.dumps(rk))
     # … and defaulted members whose own default differs from / equals the default of their TYPE
     md = {"differs_zero": 0, "differs_other": 0, "equal": 0, "option_of": 0}
     for sc in structs:
@@ -1203,6 +1241,13 @@ def emulate_mutation(ctx, w, structs):
                     pre = "error converting supplied value for %s: " % p["name"]
                     if ent[str(p["type_id"])]["kind"] == "box" and b["err"].startswith(pre):
                         b["err"] = b["err"][len(pre):]
+            elif MUT == "unit-slot-dropped" and "err" in b:
+                # TryFrom<builder> uses value.f.unwrap_or_default() for members of type (): their slot never fails
+                ent = sc.gen["dump"]["entries"]
+                units = {p["name"] for p in sc.props if ent[str(p["type_id"])]["kind"] == "unit"}
+                exp_ok, off, obj = expected_direct(sc, sq)
+                if off and all(o[0] in units for o in off):
+                    sc.res[(q, "build")] = {"ok": dict(obj), "fields": []}
             elif MUT == "default-differs" and "ok" in b:
                 # builder default of a defaulted property differs from the serde default
                 for k, p in enumerate(sc.props):
@@ -1241,6 +1286,11 @@ def emulate_early(ctx, w):
             for t in g.get("types", []):
                 if t.get("builder"):
                     t["builder"] = t["builder"].replace("builder ::", "builders ::")
+    if MUT == "scan-tryfrom":
+        for g in w.gen:
+            for im in g.get("render", {}).get("scan", {}).get("impls", []):
+                if im["mod"] == "builder" and im.get("trait") and "TryFrom" in im["trait"]:
+                    im["body"] = re.sub(r"value \. (\w+) \? ,", r"value . \1 . unwrap_or_default () ,", im["body"], count=1)
     if MUT == "scan-default":
         for g in w.gen:
             for im in g.get("render", {}).get("scan", {}).get("impls", []):
